@@ -89,10 +89,11 @@ pub struct Corpus {
 /// the C01 corpus (also consumed by C02/C10/C12/C16)
 pub fn corpus(thorough: bool) -> Vec<Corpus> {
     let mut out = Vec::new();
-    let nids = if thorough { 6 } else { 5 };
+    let nids = if thorough { 7 } else { 5 };
     let mut items = Vec::new();
     for c in COMPS {
-        items.extend(small_maps(nids, c));
+        // 5^7 maps with brotli quality 11 would take an hour: brotli stays at 6 ids
+        items.extend(small_maps(if c == Compression::Brotli { nids.min(6) } else { nids }, c));
     }
     out.push(Corpus { family: "small-maps", items });
     // the same over id alphabets that sit on varint-width and u32 boundaries (3^6 maps each)
